@@ -83,7 +83,15 @@ pub fn record(output: &str, seed: u64, thorough: bool) -> Value {
 		let nk = rng.range(10, 20) as usize;
 		// every capacity 1..8 is visited; the rest sampled up to 64
 		let cap = if h < 8 { h + 1 } else { rng.range(1, 64) } as usize;
-		let mut c = LimitedCache::<u32, i64>::verif_with_capacity(cap);
+		// every other history builds its cache the way production code does: from a BYTE budget; the capacity the property
+		// speaks of is then budget / (size of a key + size of a value), here for a budget with room for exactly `cap` entries
+		// plus a remainder smaller than one entry
+		let elem = std::mem::size_of::<u32>() + std::mem::size_of::<i64>();
+		let mut c = if h % 2 == 1 || h == 0 {
+			LimitedCache::<u32, i64>::with_maximum_size(cap * elem + rng.below(elem as u64) as usize)
+		} else {
+			LimitedCache::<u32, i64>::verif_with_capacity(cap)
+		};
 		out.emit(&json!({"ev":"Init","cap":cap,"entries":vec![0i64; nk],"mru":0}));
 		let mut first_ops = vec![];
 		for n in 0..ops_per {
